@@ -1,7 +1,8 @@
 (* C18 — no input makes the tool fail with an unhandled error.  PARTIAL: theorems cover the
    exception sources the model contains; the rest is exploration (see DESIGN.md section 9 C18). *)
 From WD Require Import Base Wire Conn Color LetterId Matcher MatcherParse Session.
-From WD Require Import TotalityProofs SessionProofs.
+From WD Require Import TotalityProofs SessionProofs EofCloses.
+From Coq Require Import Permutation.
 Open Scope N_scope.
 
 (* arbitrary text given as a matcher is either accepted or rejected with a diagnostic: the only
@@ -29,6 +30,22 @@ Proof. exact cmds_do_not_touch_record. Qed.
 (* end of input reports closed connections only (every close notice is a connection the backend opened) *)
 Theorem C18_eof_closes : forall s, Forall is_closed_notice (snd (log_eof s)).
 Proof. exact eof_only_close_notices. Qed.
+
+(* every connection that was opened is reported closed: after any log-mode event sequence (message
+   lines, other lines, commands) end of input leaves no connection open, changes nothing else, and
+   prints exactly one `Closed` notice per connection that was open (as a multiset: the code
+   iterates a set) *)
+Theorem C18_all_opened_are_closed : forall P evs d st c u g,
+  Forall log_event evs ->
+  let T0 := mkTop None (init_sess d st c u g) in
+  let T1 := fst (run P T0 evs) in
+  let r := run P T0 (evs ++ [EEof]) in
+  s_conns (t_sess (fst r)) = map closef (s_conns (t_sess T1)) /\
+  Forall (fun x => c_open x = false) (s_conns (t_sess (fst r))) /\
+  exists o, snd r = snd (run P T0 evs) ++ [o] /\
+            Permutation o (map (notice (s_color (t_sess T1))) (filter c_open (s_conns (t_sess T1)))).
+Proof. exact run_then_eof_exact. Qed.
+Print Assumptions C18_all_opened_are_closed.
 
 Example C18_ex : is_runtime_error (parse (s2l "(")) = true /\ is_runtime_error (parse (s2l "a.b.c")) = true /\
                  is_runtime_error (parse (s2l "")) = true /\ is_ok (parse (s2l "*")) = true.
